@@ -7,6 +7,23 @@ CLAIMS = {
   text="Deductive proof, for every payload of 1..65535 bytes under either request prefix and every interleaving with foreign entries: contracts on tls.BreakIntoNextProtos / tls.CombineFromNextProtos (entry shape, 255-byte bound, fold specification, no-panic for arbitrary entries) plus two ghost induction lemmas (tls.lemmaBreakShape, tls.lemmaChunkRoundTrip) whose verification conditions are generated from the SSA of the real functions and discharged by cvc5/z3 on every run.",
   note="Trusted: the engine (govc), go/ssa, the solvers; library specs of fmt.Sprintf(\"%s%02d-%s\") (decimal rendering has no hyphen, width by range up to 4 digits), strings.HasPrefix/TrimPrefix/IndexByte as SMT string operations; integers mathematical; SMT strings stand for Go byte strings. Payload bound 65535 bytes (larger than any ClientHello ALPN list).",
   design="5 C20", technique="contracts + loop invariants + ghost induction lemmas, WP over go/ssa, SMT (cvc5 strings, z3)"),
+
+ "C05": dict(
+  text="Deductive proof over the real tls.GenerateServerCertificates / verifyGenerateCertificatesRequest: for every request, storage state and lookup path, success without the local skip flag implies a record present in storage (by key id, or under the requested node id when the storage is a NodeIdLoader) whose Ed25519 key verifies the nonce and, when present, the client state; an error returns nothing. Contracts on the loaders (LoadNodeInformation, LoadRootCertificates, SigningParams, decryptForLoad) are proved as well.",
+  note="Trusted: engine, go/ssa, solvers; idealised crypto (Verify is an uninterpreted relation, key ids injective); ghost storage contract for the Storage interface (Load fails exactly on absent entries in reliable mode); types.LoadNodeInformationSetByNodeId has a TRUSTED contract (its loop is not verified yet: every returned node is a copy of a stored record with that node id); x509/ed25519/protobuf library specs listed in the evidence file.",
+  design="5 C05", technique="contracts + loop invariant, WP over go/ssa, SMT (z3, cvc5)"),
+ "C11": dict(
+  text="Deductive proof over the real EncryptMessage / DecryptMessage / decryptWithKey and the X25519 key-derivation methods: decryption returns nil only if the AEAD opened under the receiver's current or previous (key, key id) pair with the key id as additional data and the result is exactly the decoded plaintext; a ciphertext that opens under the current (or previous) pair is always accepted; ghost lemmas prove the encrypt/decrypt round trip and that node side and server side derive the same secret and key id; no-panic for arbitrary ciphertext including the go-kms-wrapping aead precondition len(ciphertext) >= 12.",
+  note="Trusted: engine, go/ssa, solvers; AEAD idealisation (opens only under the same key and additional data; round trip), X25519 symmetry axiom dh(a,xpub(b)) == dh(b,xpub(a)), protobuf Marshal/Unmarshal inverse, go-kms-wrapping aead wrapper spec (SetConfig fails only for keys that are not 32 bytes; Decrypt requires 12 ciphertext bytes). Key sources of unknown dynamic type are deterministic functions of the interface value.",
+  design="5 C11", technique="contracts + ghost lemmas, WP over go/ssa, SMT (z3, cvc5)"),
+ "C03": dict(
+  text="Deductive proof over the real registration.validateFetchRequestCommon and (*NodeCredentials).CreateFetchNodeCredentialsRequest: validation succeeds only if the bundle decodes to the returned info, required fields and key types are present, the signature verifies under the Ed25519 key named in the bundle, and the clock reading lies in the window widened by the configured skews (any option list); on error nothing is returned and storage is untouched (frame condition); created requests are valid from the clock reading for exactly DefaultFetchCredentialsLifetime and are signed by the credentials' own key.",
+  note="Trusted: engine, go/ssa, solvers; Ed25519 idealisation; protobuf decode model; options algebra derived from the SSA of options.go on every run (application-supplied options are an arbitrary but fixed record). The ordering 'validation before any authorization decision' for FetchNodeCredentials / AuthorizeNode is carried by their contracts under C01/C13 when those are claimed.",
+  design="5 C03", technique="contracts, WP over go/ssa, SMT (z3, cvc5)"),
+ "C08": dict(
+  text="Deductive proof over the real rotation.decideWhatToMake (full decision table over the four stored instants relative to the clock reading, both directions) and rotation.RotateRootCertificates (labels, durability: storage holds the same two roots that are returned; current valid at the call instant; next begins no later than current ends; from empty storage next begins and ends later and overlaps; keep / promote / re-mint-next / reinitialize regions with the exact shifted windows), for every option list with positive lifetime, non-positive not-before skew and non-negative not-after skew, every stored state satisfying the invariant that the function itself re-establishes, and every storage failure.",
+  note="Trusted: engine, go/ssa, solvers; integers mathematical; the clock is instantaneous within one call (all readings of one call are equal) - the clock-window assumption of DESIGN.md section 4 with delta = 0; x509.CreateCertificate / ed25519 specs; ghost storage contract. Instants exactly equal to now in the second root's comparisons are left open, as the property statement does. Strict 'next begins before current ends' is proved for freshly minted pairs, the weak inequality in general (boundary instant). The from-empty clause needs lifetime + not-after skew >= 2ns (a 1ns window has no half to shift by).",
+  design="5 C08", technique="contracts, WP over go/ssa, SMT linear integer arithmetic (z3, cvc5)"),
 }
 
 NA = {
